@@ -168,6 +168,8 @@ def main():
         return props.replay(a.prop, a.replay)
     rep = Report(a.prop, a.tier, seed)
     try:
+        # (0) translators that regenerate Lean sources from /repo's working tree
+        props.pre_build(a.prop, rep)
         # (1) proof obligations
         ok, log = lean_build(a.prop)
         rep.oblige(ok, f"lake build PS.Theorems.{a.prop} driver")
